@@ -323,7 +323,8 @@ Definition mirror_ok (fid : N) (args : list value) (o : res) : bool :=
 
 (* ------------------------------------------------------------------ *)
 (* one function: its family, index width, packed observations           *)
-Definition job : Type := (N * family * N * string)%type.
+(* the packed observations come in chunks (a long string literal is a deep term) *)
+Definition job : Type := (N * family * N * list string)%type.
 
 (* a failing case is reported as (function id, case index, job index) *)
 Fixpoint walk (ok : list value -> res -> bool) (fid jx : N) (cases : list (list value))
@@ -336,9 +337,9 @@ Fixpoint walk (ok : list value -> res -> bool) (fid jx : N) (cases : list (list 
   | _, _ => [(999%N, jx, i)]           (* the two enumerations differ in length *)
   end.
 
-Definition decode (pool : list value) (OB : list obs) (w : N) (s : string) : list res :=
+Definition decode (pool : list value) (OB : list obs) (w : N) (ss : list string) : list res :=
   let table := map (obs_res pool) OB in
-  map (fun i => nth (N.to_nat i) table Unmodelled) (unpack90 w s).
+  flat_map (fun s => map (fun i => nth (N.to_nat i) table Unmodelled) (unpack90 w s)) ss.
 
 Definition run_job (ok : N -> list value -> res -> bool) (pl : pools) (OB : list obs) (jx : N) (j : job)
   : list (N * N * N) :=
@@ -427,14 +428,14 @@ Fixpoint pct_explicit (E : list (list value * list Z)) (os : list res) (i : N) :
 
 (* ------------------------------------------------------------------ *)
 Definition mismatches (pl : pools) (OB : list obs) (jobs : list job)
-                      (E : list (N * list value)) (ew : N) (es : string)
-                      (PE : list (list value * list Z)) (pes : string) : list (N * N * N) :=
+                      (E : list (N * list value)) (ew : N) (es : list string)
+                      (PE : list (list value * list Z)) (pes : list string) : list (N * N * N) :=
   run_jobs verdict_ok pl OB jobs 0%N
   ++ flat_map (run_pct pl OB) jobs
   ++ walk_explicit verdict_ok E (decode (P pl) OB ew es) 0%N
   ++ pct_explicit PE (decode (P pl) OB ew pes) 0%N.
 
 Definition drift (pl : pools) (OB : list obs) (jobs : list job)
-                 (E : list (N * list value)) (ew : N) (es : string) : list (N * N * N) :=
+                 (E : list (N * list value)) (ew : N) (es : list string) : list (N * N * N) :=
   run_jobs mirror_ok pl OB jobs 0%N
   ++ walk_explicit mirror_ok E (decode (P pl) OB ew es) 0%N.
